@@ -24,10 +24,10 @@ Definition ex_M : row := mkRow "M" M_formals [] [] [] [] [] None false [] CBGate
 Definition ex_rows : list row := [ex_H; ex_RX; ex_CNOT; ex_iSWAP; ex_I; ex_Align; ex_M].
 Definition ex_bases : list string := ["X"; "Y"; "Z"].
 (* the tables as they are on the current tree (after the repairs of _qibo_gate_name("iswap") and of
-   REQUIRED_FIELDS_INIT_KWARGS), and as they were before (prefix old_), kept only for the historical lemmas *)
+   REQUIRED_FIELDS_INIT_KWARGS: "unitary" added), and as they were before (prefix old_), kept only for the historical lemmas *)
 Definition old_required : list string :=
   ["theta"; "phi"; "lam"; "phi0"; "phi1"; "register_name"; "collapse"; "basis"; "p0"; "p1"].
-Definition ex_required : list string := (old_required ++ ["delay"; "unitary"])%list.
+Definition ex_required : list string := (old_required ++ ["unitary"])%list.
 Definition old_specials : list (string * string) := [("cx", "CNOT"); ("id", "I"); ("ccx", "TOFFOLI"); ("u", "U3"); ("U", "U3")].
 Definition ex_specials : list (string * string) :=
   [("cx", "CNOT"); ("id", "I"); ("ccx", "TOFFOLI"); ("iswap", "iSWAP"); ("u", "U3"); ("U", "U3")].
@@ -155,20 +155,14 @@ Proof.
   wit.
 Qed.
 
-(* current tree: Align keeps its delay through raw / from_dict *)
+(* Gate.raw drops Align's `delay` (still open on the current tree: "delay" is not a required kwarg) *)
 Definition ex_align : gate := unwrap dummy_gate (construct ex_bases ex_Align [VA (AInt 1); VA (AInt 3)] []).
-Lemma ex_align_roundtrips :
+Lemma ex_align_delay_lost : exists g',
   construct ex_bases ex_Align [VA (AInt 1); VA (AInt 3)] [] = OK ex_align
-  /\ raw_rt_ok (from_dict ex_rows ex_bases (raw ex_required ex_align)) ex_align
-  /\ gparams ex_align = [VA (AInt 3)].
-Proof. repeat split; vm_compute; reflexivity. Qed.
-
-(* HISTORICAL (before "delay" was added to REQUIRED_FIELDS_INIT_KWARGS): Gate.raw dropped Align's delay *)
-Lemma historical_align_delay_lost_without_delay_key : exists g',
-  from_dict ex_rows ex_bases (raw old_required ex_align) = OK g'
+  /\ from_dict ex_rows ex_bases (raw ex_required ex_align) = OK g'
   /\ gparams ex_align = [VA (AInt 3)] /\ gparams g' = [VA (AInt 0)].
 Proof.
-  exists (unwrap dummy_gate (from_dict ex_rows ex_bases (raw old_required ex_align))). wit.
+  exists (unwrap dummy_gate (from_dict ex_rows ex_bases (raw ex_required ex_align))). wit.
 Qed.
 
 (* non-vacuity of circuit_dict_roundtrip_partial: the example circuit's gates satisfy its hypothesis *)
